@@ -94,3 +94,26 @@ PROPS["C01"] = {
     "owner": lambda name: name.startswith("C01.") or name in ("C12.rebuilt_graph_is_arrival_first", "C02.built_graph_is_denotation", "C09.history_inverse", "C13.walk_joins_smallest_free"),
     "assumptions": ["kinds outside C06's known class, at most 99 closures open, isotope/map below 1000 (C18)"],
 }
+
+PROPS["C10"] = {
+    "deps": ["Proofs/BuilderWf.vo", "Proofs/C12_Final.vo"],
+    "props": "Props/C10.v",
+    "suites": [("hist", 1000, 30000), ("reader", 800, 20000)],
+    "owner": lambda name: name.startswith("C10.") or name == "C02.built_graph_is_denotation",
+    "assumptions": ["kinds outside C06's known class"],
+}
+
+PROPS["C04"] = {
+    "deps": ["Proofs/Reading.vo", "Proofs/C09_Final.vo", "Proofs/ReaderSafe.vo"],
+    "props": "Props/C04.v",
+    "probes": [{"file": "Probes/Reading.v"}],
+    "suites": [("reader", 1600, 60000)],
+    "assumptions": ["UTF-8 decoding (str::chars) is std; the model's input is the list of code points"],
+}
+PROPS["C05"] = {
+    "deps": ["Proofs/Reading.vo"],
+    "props": "Props/C05.v",
+    "probes": [{"file": "Probes/Reading.v", "filter": lambda name: name.startswith("C04.token_")}],
+    "suites": [("reader", 1600, 60000)],
+    "assumptions": ["cursors count characters, not bytes (Scanner collects chars())"],
+}
